@@ -181,6 +181,21 @@ func execDedup(f []string) vlib.Res {
 			}
 		}
 		return res
+	case "quickslow": // dedup quickslow <udp|tcp> <quick_ms> <slow_ms>
+		if dd == nil || len(f) != 5 {
+			return vlib.Res{Impl: "bad-op"}
+		}
+		res := dd.quickSlow(f[2], vlib.Atoi(f[3]), vlib.Atoi(f[4]))
+		if strings.HasPrefix(res.Oracle, "FAIL") { // real time on a shared machine: must reproduce
+			first := res.Oracle
+			waitFor(3*time.Second, dd.l.Srv.Quiesced)
+			res = dd.quickSlow(f[2], vlib.Atoi(f[3]), vlib.Atoi(f[4]))
+			res.Tags += ",retried"
+			if !strings.HasPrefix(res.Oracle, "FAIL") {
+				res.Tags += ",unreproduced:" + strings.Fields(first)[1]
+			}
+		}
+		return res
 	case "shift":
 		if dd == nil || len(f) != 3 {
 			return vlib.Res{Impl: "bad-op"}
@@ -219,6 +234,43 @@ func execDedup(f []string) vlib.Res {
 		return vlib.Res{Impl: "closed", Oracle: or}
 	}
 	return vlib.Res{Impl: "bad-op"}
+}
+
+// quickSlow: a quick query and, right behind it on the same worker (UDP: one
+// ingress worker, the second datagram is queued while the first is served; TCP:
+// two frames pipelined in one write), an unrelated slow one. The quick reply is
+// finished long before the slow resolution ends and must not wait for it.
+func (e *ddEnv) quickSlow(transport string, quickMs, slowMs int) vlib.Res {
+	e.serial++
+	a := e.adapter()
+	listen := time.Duration(quickMs+slowMs)*time.Millisecond + 1200*time.Millisecond
+	e.nextID += 2
+	qa := &client{kind: transport, name: fmt.Sprintf("ok%d-qs%da.dd.test.", quickMs, e.serial), qtype: dns.TypeA, id: uint16(3000 + e.nextID*3)}
+	qb := &client{kind: transport, name: fmt.Sprintf("ok%d-qs%db.dd.test.", slowMs, e.serial), qtype: dns.TypeA, id: uint16(3001 + e.nextID*3)}
+	if transport == "tcp" {
+		a.runTCP([]*client{qa, qb}, listen, 0)
+	} else {
+		var wg sync.WaitGroup
+		wg.Add(2)
+		go func() { defer wg.Done(); a.runUDP(qa, listen) }()
+		go func() { defer wg.Done(); time.Sleep(30 * time.Millisecond); a.runUDP(qb, listen) }()
+		wg.Wait()
+	}
+	or := "ok"
+	tags := "nt"
+	switch {
+	case len(qa.replies) != 1 || len(qb.replies) != 1:
+		or = fmt.Sprintf("FAIL sig=dedup/quickslow/%s/reply-count quick=%d slow=%d", transport, len(qa.replies), len(qb.replies))
+	default:
+		ta, tb := qa.replies[0].at, qb.replies[0].at
+		tags += fmt.Sprintf(",quick_ms=%d,slow_ms=%d", ta.Milliseconds(), tb.Milliseconds())
+		// wide margin: the quick reply is complete after quickMs; it may not take
+		// longer than that plus half of the unrelated resolution
+		if ta > time.Duration(quickMs)*time.Millisecond+time.Duration(slowMs)*time.Millisecond/2 {
+			or = fmt.Sprintf("FAIL sig=dedup/quickslow/%s/finished-reply-held-behind-slow-query quick=%s slow=%s", transport, ta.Round(time.Millisecond), tb.Round(time.Millisecond))
+		}
+	}
+	return vlib.Res{Impl: "done", Oracle: or, Tags: tags}
 }
 
 func (e *ddEnv) burst(label string, nUDP, nTCP, nMsg int, cancel string, stagger time.Duration) vlib.Res {
